@@ -216,7 +216,7 @@ static size_t Type_Builtin_Size(struct Type* t) {
 }
 
 static int Type_Show(var self, var output, int pos) {
-  return format_to(output, pos, "%s", Type_Builtin_Name(self));
+  return pos + format_to(output, pos, "%s", Type_Builtin_Name(self));
 }
 
 static int Type_Cmp(var self, var obj) {
